@@ -384,6 +384,36 @@ def rule_R15(body: str, log, where):
     return body
 
 
+def rule_R17(body: str, log, where):
+    """match-arm pattern `Some(&x) => E`  ->  `Some(x__r) => { let x = *x__r; E }` (Verus has no reference patterns; the
+    language's own meaning of `&x` in a pattern for a Copy type)"""
+    for _ in range(16):
+        mask = mask_rust(body)
+        m = re.search(r"\b(Some|Ok|Err)\(\s*&\s*(\w+)\s*\)(\s*)=>(\s*)", mask)
+        if not m:
+            break
+        name = m.group(2)
+        k = m.end()
+        if mask[k] == "{":
+            body = body[:m.start()] + f"{m.group(1)}({name}__r) => {{ let {name} = *{name}__r;" + body[k + 1:]
+        else:
+            depth, e = 0, k
+            while e < len(mask):
+                ch = mask[e]
+                if ch in "([{":
+                    depth += 1
+                elif ch in ")]}":
+                    if depth == 0:
+                        break
+                    depth -= 1
+                elif ch == "," and depth == 0:
+                    break
+                e += 1
+            body = body[:m.start()] + f"{m.group(1)}({name}__r) => {{ let {name} = *{name}__r; " + body[k:e] + " }" + body[e:]
+        log.append({"rule": "R17", "where": where, "before": f"{m.group(1)}(&{name}) =>", "after": f"{m.group(1)}({name}__r) => {{ let {name} = *{name}__r; .. }}"})
+    return body
+
+
 def apply_rewrite(body, rule, frm, to, allocc, log, where):
     """exact-text rewrite. A missing anchor is NOT fatal: the rule is skipped and logged (`missed`), the real text
     goes to Verus unrewritten and either verifies, fails (violation) or is rejected by the front end (undecided).
@@ -1015,6 +1045,8 @@ def generate(unit, template_path, canary=False, extra_fns=()):
                 newsig += " " + wh.replace("\n", " ")
             # --- body rewrites
             body = rule_R4(body, g.rewrites, where)
+            if re.search(r"\b(?:Some|Ok|Err)\(\s*&\s*\w+\s*\)\s*=>", mask_rust(body)):
+                body = rule_R17(body, g.rewrites, where)
             if re.search(r"\bcontinue\b", mask_rust(body)):
                 body = rule_R15(body, g.rewrites, where)
             if re.search(r"\(\s*mut\s+self\b", newsig):
